@@ -83,6 +83,9 @@ func (ci *ChunkInfo) getChunkInfo(rootCid, cid boson.Address) []aco.Route {
 	for overlay, bv := range ci.cd.presence[rootCid.String()] {
 		over := boson.MustParseHexAddress(overlay)
 		s := ci.getCidSort(rootCid, cid)
+		if s < 0 {
+			break
+		}
 		if bv.bit.Get(s) {
 			route := aco.NewRoute(over, over)
 			res = append(res, route)
